@@ -9,7 +9,7 @@ TIMEOUT = {"quick": 2400, "thorough": 12000}
 RULE = ("the fault suite (map-only, reduce, cogroup, fold, two-stage shuffles, a reused result, generated programs) on bigmachine "
         "testsystem clusters (1-proc and 2-proc machines, parallelism 2..4, no machine combiners: the property excludes them); one or two "
         "kills per case, each at the n-th call of Worker.Compile / Run / Stat / Read / CommitCombiner / Supervisor.Keepalive, or while a machine "
-        "boots (Worker.FuncLocations, Supervisor.Getpid / Register; also on one-machine clusters), either "
+        "boots (Worker.FuncLocations, Supervisor.Getpid; also on one-machine clusters), either "
         "before the call runs, after it ran but before its reply is delivered (the task completed, the driver never learns), or — for "
         "Worker.Read — after half of the reply was streamed (in the middle of a shuffle read or of the final scan), "
         "including kills during the final scan (Worker.Read of the result); thorough: every (method, n, phase) up to the number of "
@@ -39,16 +39,17 @@ REUSE = ("N0=const 3 %s ; N1=reduce N0 add ; OUT N1" % ROWS, "N0=reshuffle R0 ; 
 METHODS = [("Worker.Run", 12), ("Worker.Read", 16), ("Worker.Compile", 3), ("Worker.Stat", 6), ("Worker.CommitCombiner", 3),
            ("Supervisor.Keepalive", 6), ("Worker.TaskStats", 4),
            # while a machine boots (before its first task): the capacity it was to provide must be replaced
-           ("Worker.FuncLocations", 3), ("Supervisor.Getpid", 3), ("Supervisor.Register", 3)]
+           ("Worker.FuncLocations", 3), ("Supervisor.Getpid", 3)]
 CONFIGS = ["bm M1 P2", "bm M1 P3", "bm M2 P4", "bm M1 P4", "bm M1 P1"]
-# (Supervisor.Ping is not killed: bigmachine itself waits minutes for a machine that never answers its first ping)
+# (Supervisor.Ping and Supervisor.Register are not killed: bigmachine itself retries them for 5..9 minutes before it gives a
+# booting machine up — machine.go:426,529 —, a stall that is not bigslice's and that the harness would report as a hang)
 
 
 def directed_boot():
     """machines lost while they boot, on the smallest clusters (one lost machine is all the capacity there is)"""
     p = "N0=const 2 %s ; N1=reduce N0 add ; OUT N1" % ROWS
     for cfg in ("bm M1 P1", "bm M1 P2", "bm M2 P2"):
-        for m in ("Worker.FuncLocations", "Supervisor.Getpid", "Supervisor.Register"):
+        for m in ("Worker.FuncLocations", "Supervisor.Getpid"):
             yield "%s ;; KILL %s 1 before ;; %s" % (cfg, m, p)
             yield "%s ;; KILL %s 1 after ; KILL %s 2 before ;; %s" % (cfg, m, m, p)
 
